@@ -101,6 +101,7 @@ type pn struct {
 	Created time.Time // what CreatedDesc sorts on (corpus.PermanodeAnyTime)
 	Mod     time.Time // what LastModifiedDesc sorts on (corpus.PermanodeModtime)
 	Tag     string
+	Typed   bool // has camliNodeType=typeT (set by an old claim that moves neither sort time)
 }
 
 // Pivot is a candidate Around blob.
@@ -176,8 +177,12 @@ func Build(spec Spec) (*World, error) {
 		name := fmt.Sprintf("p%d", i)
 		p := permanode(name)
 		inst := allInstants[spec.Assign[i]]
-		m := pn{I: i, Name: name, Blob: p, Tag: tagOf(i)}
+		m := pn{I: i, Name: name, Blob: p, Tag: tagOf(i), Typed: i%3 != 2}
 		add(name, p)
+		if m.Typed {
+			// lets the planner pick its camliNodeType-restricted candidate source
+			add(name+".nodetype", setAttr(p, name, "camliNodeType", "typeT", oldDate))
+		}
 		switch spec.Family {
 		case "claim":
 			m.Created, m.Mod = inst.T, inst.T
@@ -296,6 +301,11 @@ var konsAll = []Kons{
 					A: &search.Constraint{Permanode: &search.PermanodeConstraint{Attr: "tag", Value: "x"}}}}}}
 		},
 		func(m pn) bool { return m.Tag != "x" }},
+	{"permanode{camliNodeType=typeT}",
+		func() *search.Constraint {
+			return &search.Constraint{Permanode: &search.PermanodeConstraint{Attr: "camliNodeType", Value: "typeT"}}
+		},
+		func(m pn) bool { return m.Typed }},
 	{"permanode{time>=T}",
 		func() *search.Constraint {
 			tc := &search.TimeConstraint{}
